@@ -18,19 +18,21 @@ StrLeaves == { S(<<>>, TRUE), S(<<97>>, TRUE), S(<<40>>, FALSE), S(<<41>>, FALSE
                S(<<13,10>>, TRUE), S(<<97,32,98>>, TRUE), S(<<40,97,40,98,41,99,41>>, TRUE), S(<<92,110>>, TRUE),
                S(<<37,120>>, TRUE), S(<<16>>, TRUE),
                \* digits next to bytes that are written as escapes
-               S(<<169,49,57,57,57>>, TRUE), S(<<0,55>>, TRUE), S(<<7,56>>, TRUE), S(<<1,48,48,49>>, TRUE), S(<<53,1,50,200,51>>, TRUE), S(<<27,27,57>>, TRUE) }
+               S(<<169,49,57,57,57>>, TRUE), S(<<0,55>>, TRUE), S(<<7,56>>, TRUE), S(<<1,48,48,49>>, TRUE), S(<<53,1,50,200,51>>, TRUE), S(<<27,27,57>>, TRUE),
+               \* line feeds right after the first byte (where the continuation styles put their backslash + end-of-line)
+               S(<<97,10,99>>, TRUE), S(<<97,10,10,98>>, TRUE), S(<<10,10>>, TRUE) }
 NameLeaves == { N(<<>>), N(<<65>>), N(<<65,32,66>>), N(<<35>>), N(<<65,47,66>>), N(<<255>>), N(<<116,114,117,101>>),
                 N(<<70,49>>), N(<<40>>), N(<<37>>), N(<<65,46,66,45,49>>) }
 LeavesFull == {K("null"), K("true"), K("false"), [k |-> "ref", n |-> 12, g |-> 0]}
               \cup IntLeaves \cup RealLeaves \cup StrLeaves \cup NameLeaves
 \* reduced alphabet for the deeper exhaustive runs: one or two of each class
 LeavesSmall == {K("null"), K("true"), [k |-> "ref", n |-> 12, g |-> 0],
-                I(<<45,49>>, <<45,49>>), R(<<46,53>>, 5, -1), S(<<40>>, FALSE), S(<<97,32,98>>, TRUE), S(<<7,55,56>>, TRUE),
+                I(<<45,49>>, <<45,49>>), R(<<46,53>>, 5, -1), S(<<40>>, FALSE), S(<<97,32,98>>, TRUE), S(<<7,55,56>>, TRUE), S(<<97,10,99>>, TRUE),
                 N(<<65,32,66>>), N(<<70,49>>)}
 LeavesMid == {K("null"), K("true"), K("false"), [k |-> "ref", n |-> 12, g |-> 0],
               I(<<45,49>>, <<45,49>>), I(<<57,50,50,51,51,55,50,48,51,54,56,53,52,55,55,53,56,48,55>>, <<57,50,50,51,51,55,50,48,51,54,56,53,52,55,55,53,56,48,55>>),
               R(<<46,53>>, 5, -1), R(<<52,46>>, 4, 0), S(<<40>>, FALSE), S(<<97,32,98>>, TRUE), S(<<13,10>>, TRUE),
-              S(<<40,97,40,98,41,99,41>>, TRUE), S(<<169,49,57,57,57>>, TRUE), S(<<1,48,48,49>>, TRUE), N(<<65,32,66>>), N(<<>>), N(<<70,49>>), N(<<37>>)}
+              S(<<40,97,40,98,41,99,41>>, TRUE), S(<<169,49,57,57,57>>, TRUE), S(<<1,48,48,49>>, TRUE), S(<<97,10,10,98>>, TRUE), N(<<65,32,66>>), N(<<>>), N(<<70,49>>), N(<<37>>)}
 KeysMC == << <<65>>, <<66,35>>, <<67,32>> >>
 Op(b) == [k |-> "op", b |-> b]
 OpsMC == {Op(<<84,106>>), Op(<<39>>), Op(<<34>>), Op(<<84,42>>), Op(<<66,68,67>>), Op(<<68,111>>)}
@@ -46,10 +48,11 @@ PoliciesFull == { Pol("min","lf","lit","plain"), Pol("min","cr","oct","esc"), Po
                   Pol("all","cr","hex","esc"), Pol("all","crlf","hexws","plain"),
                   Pol("cmt","lf","lit","esc"), Pol("cmt","cr","oct","plain"), Pol("cmt","crlf","cont","esc"),
                   Pol("cmt","lf","hex","plain"), Pol("cmt","cr","hexws","esc"),
-                  Pol("min","lf","octmix","plain"), Pol("one","cr","octmin","esc"), Pol("all","crlf","octmix","esc"), Pol("cmt","lf","octmin","plain") }
+                  Pol("min","lf","octmix","plain"), Pol("one","cr","octmin","esc"), Pol("all","crlf","octmix","esc"), Pol("cmt","lf","octmin","plain"),
+                  Pol("min","lf","contraw","plain"), Pol("one","crlf","contraw","esc"), Pol("all","cr","contraw","plain") }
 PoliciesSmall == { Pol("min","lf","lit","plain"), Pol("one","cr","oct","esc"), Pol("all","crlf","cont","plain"),
                    Pol("cmt","lf","hex","esc"), Pol("cmt","cr","hexws","plain"), Pol("min","crlf","hexws","esc"),
-                   Pol("min","lf","octmix","plain"), Pol("one","lf","octmin","plain") }
+                   Pol("min","lf","octmix","plain"), Pol("one","lf","octmin","plain"), Pol("one","lf","contraw","plain") }
 
 PoliciesWs == { Pol("min","lf","lit","plain"), Pol("one","cr","hex","esc"), Pol("all","crlf","lit","plain"),
                 Pol("cmt","lf","lit","esc"), Pol("cmt","cr","hexws","plain"), Pol("cmt","crlf","oct","plain") }
